@@ -320,8 +320,14 @@ class ResultTypesGenerator:
         return [class_def] + extra_classes
 
     def _resolve_selection_set(
-        self, selection_set: SelectionSetNode, root_type: str = ""
+        self,
+        selection_set: SelectionSetNode,
+        root_type: str = "",
+        class_type: Optional[str] = None,
     ) -> Tuple[List[FieldNode], Set[str]]:
+        # class_type is the type the class is generated for, root_type differs
+        # from it inside an inline fragment on an interface implemented by it
+        class_type = class_type or root_type
         fields = []
         fragments = set()
         for selection in selection_set.selections:
@@ -335,7 +341,10 @@ class ResultTypesGenerator:
                 ]
                 if not self._unpack_fragment(fragment_def, root_type_def):
                     fragments.add(selection.name.value)
-                elif fragment_def.type_condition.name.value == root_type or (
+                elif fragment_def.type_condition.name.value in (
+                    root_type,
+                    class_type,
+                ) or (
                     is_abstract_type(fragment_root_type_def)
                     and self.schema.is_sub_type(
                         cast(GraphQLAbstractType, fragment_root_type_def),
@@ -344,7 +353,11 @@ class ResultTypesGenerator:
                 ):
                     self._unpacked_fragments.add(selection.name.value)
                     sub_fields, sub_fragments = self._resolve_selection_set(
-                        fragment_def.selection_set, root_type
+                        fragment_def.selection_set,
+                        fragment_def.type_condition.name.value
+                        if fragment_def.type_condition.name.value == class_type
+                        else root_type,
+                        class_type,
                     )
                     fields.extend(
                         self._with_conditional_directives(
@@ -355,14 +368,14 @@ class ResultTypesGenerator:
             elif isinstance(selection, InlineFragmentNode):
                 root_type_value = (
                     self._get_inline_fragment_root_type(
-                        selection.type_condition.name.value, root_type
+                        selection.type_condition.name.value, root_type, class_type
                     )
                     if selection.type_condition
                     else root_type
                 )
                 if root_type_value:
                     sub_fields, sub_fragments = self._resolve_selection_set(
-                        selection.selection_set, root_type_value
+                        selection.selection_set, root_type_value, class_type
                     )
                     fields.extend(
                         self._with_conditional_directives(
@@ -395,7 +408,7 @@ class ResultTypesGenerator:
         return conditional_fields
 
     def _get_inline_fragment_root_type(
-        self, selection_value: str, root_type: str
+        self, selection_value: str, root_type: str, class_type: Optional[str] = None
     ) -> Optional[str]:
         type_ = self.schema.type_map.get(root_type)
         if not type_:
@@ -406,8 +419,8 @@ class ResultTypesGenerator:
         ) and selection_value in {interface.name for interface in type_.interfaces}:
             return selection_value
 
-        if selection_value == root_type:
-            return root_type
+        if selection_value in (root_type, class_type):
+            return selection_value
 
         return None
 
